@@ -26,7 +26,7 @@ CONTRACTS[PA + 'Pauli.__matmul__#Pauli'] = dict(
 CONTRACTS[PA + 'Pauli.__neg__'] = dict(
     params=[('self', PAULI)],
     requires=[],
-    ensures=['same(result.g, self.g)', 'result.p == (self.p + 2) % 4'],
+    ensures=['same(result.g, self.g)', 'len(result.g) == len(self.g)', 'result.p == (self.p + 2) % 4'],
     modifies=[], returns=dict(PAULI, exact=False),
 )
 CONTRACTS[PA + 'Pauli.copy'] = dict(
@@ -195,13 +195,13 @@ for _tag, _c, _k in (('1', 1, 0), ('i', 1j, 1), ('m1', -1, 2), ('mi', -1j, 3)):
     CONTRACTS[PA + 'Pauli.__rmul__#' + _tag] = dict(
         params=[('self', PAULI), ('c', ('const', _c))],
         requires=['0 <= self.p <= 3'],
-        ensures=['same(result.g, self.g)', 'result.p == (self.p + %d) %% 4' % _k],
+        ensures=['same(result.g, self.g)', 'len(result.g) == len(self.g)', 'result.p == (self.p + %d) %% 4' % _k],
         modifies=[], returns=dict(PAULI, exact=False),
     )
     CONTRACTS[PA + 'PauliList.__rmul__#' + _tag] = dict(
         params=[('self', dict(PLIST, exact=True)), ('c', ('const', _c))],
         requires=['phases1(self.ps)'],
-        ensures=['same(result.gs, self.gs)', 'len(result.ps) == len(self.ps)',
+        ensures=['same(result.gs, self.gs)', 'rows(result.gs) == rows(self.gs)', 'cols(result.gs) == cols(self.gs)', 'len(result.ps) == len(self.ps)',
                  'forall(j, 0, len(self.ps), result.ps[j] == (self.ps[j] + %d) %% 4)' % _k],
         modifies=[], returns=PLIST,
     )
@@ -271,4 +271,36 @@ CONTRACTS[PA + 'Pauli.__matmul__#Monomial'] = dict(
              'result.ps[0] == (self.p + other.p + IpowSum(self.g, other.g, len(self.g) // 2)) % 4',
              'result.cs[0] == cmul(cplx_one(), other.c)'],
     modifies=[], returns=POLY,
+)
+
+# ------------------------------------------------------------------ C09 / C10: a gate acting on the whole register
+GATE_GEN = {'cls': 'CliffordGate', 'fields': {'n': 'int', 'generator': dict(PAULI, exact=False), 'forward_map': 'none', 'backward_map': 'none', 'qubits': 'none'}}
+GATE_MAP = {'cls': 'CliffordGate', 'fields': {'n': 'int', 'generator': 'none', 'forward_map': CMAP, 'backward_map': 'none', 'qubits': 'none'}}
+_rot_obj = _rot_row.replace('self.', 'obj.').replace('generator.', 'self.generator.')
+_gate_req = ['self.n == cols(obj.gs) // 2', 'cols(obj.gs) % 2 == 0', 'len(self.generator.g) == cols(obj.gs)', 'len(obj.ps) == rows(obj.gs)',
+             'bits1(self.generator.g)', 'bits2(obj.gs)', '0 <= self.generator.p <= 3']
+CONTRACTS[CI + 'CliffordGate.forward#generator_global'] = dict(
+    params=[('self', GATE_GEN), ('obj', PLIST)],
+    requires=_gate_req,
+    # a generator gate on the full register IS the rotation by its generator (generator first, maps ignored)
+    ensures=['forall(j, 0, rows(obj.gs), %s)' % _rot_obj, 'same_loc(result, obj)'],
+    modifies=['obj.gs', 'obj.ps'], returns='=obj',
+)
+CONTRACTS[CI + 'CliffordGate.backward#generator_global'] = dict(
+    params=[('self', GATE_GEN), ('obj', PLIST)],
+    requires=_gate_req,
+    # ... and backward is the rotation by MINUS the generator (same string, phase + 2)
+    ensures=['forall(j, 0, rows(obj.gs), %s)' % _rot_obj.replace('self.generator.p + 1', '(self.generator.p + 2) % 4 + 1'), 'same_loc(result, obj)'],
+    modifies=['obj.gs', 'obj.ps'], returns='=obj',
+)
+CONTRACTS[CI + 'CliffordGate.forward#map_global'] = dict(
+    params=[('self', GATE_MAP), ('obj', PLIST)],
+    requires=['self.n == cols(obj.gs) // 2', 'cols(obj.gs) % 2 == 0', 'cols(obj.gs) == rows(self.forward_map.gs)',
+              'len(self.forward_map.ps) == rows(self.forward_map.gs)', 'len(obj.ps) == rows(obj.gs)', 'bits2(self.forward_map.gs)'],
+    ensures=['forall(j, 0, rows(old(obj.gs)), forall(c, 0, cols(self.forward_map.gs), '
+             'obj.gs[j][c] == OrdG(old(obj.gs)[j], self.forward_map.gs, rows(self.forward_map.gs), c)))',
+             'forall(j, 0, rows(old(obj.gs)), obj.ps[j] == (old(obj.ps)[j] + XZSum(old(obj.gs)[j], cols(old(obj.gs)) // 2) % 4 '
+             '+ OrdP(old(obj.gs)[j], self.forward_map.gs, self.forward_map.ps, rows(self.forward_map.gs), cols(self.forward_map.gs) // 2)) % 4)',
+             'same_loc(result, obj)'],
+    modifies=['obj.gs', 'obj.ps'], returns='=obj',
 )
